@@ -188,6 +188,9 @@ func TestMC(t *testing.T) {
 	for _, c := range configs() {
 		seqs = append(seqs, makeSeq(c))
 	}
+	for _, c := range bigConfigs() {
+		seqs = append(seqs, makeBigSeq(c))
+	}
 	seqs = append(seqs,
 		allocSeq(3, []int{1, 2, 5}, map[string]int{"quick": 6, "thorough": 9}),
 		allocSeq(64, []int{1, 3, 63, 64, 200}, map[string]int{"quick": 5, "thorough": 7}),
